@@ -1604,6 +1604,38 @@ func (p *Posix) CompleteMultipartUpload(ctx context.Context, input *s3.CompleteM
 	}
 
 	verifhook.Point("cmp.afterAssemble")
+
+	// compare the checksum the request declares with the calculated one
+	// before the existing object is touched: a request refused with
+	// BadDigest must not have archived the current version or replaced
+	// its attributes
+	var objSum string
+	if checksums.Type != "" {
+		switch checksums.Type {
+		case types.ChecksumTypeComposite:
+			objSum = compositeChecksumRdr.Sum()
+		case types.ChecksumTypeFullObject:
+			objSum = hashRdr.Sum()
+		}
+
+		var declared *string
+		switch checksumAlgorithm {
+		case types.ChecksumAlgorithmCrc32:
+			declared = input.ChecksumCRC32
+		case types.ChecksumAlgorithmCrc32c:
+			declared = input.ChecksumCRC32C
+		case types.ChecksumAlgorithmSha1:
+			declared = input.ChecksumSHA1
+		case types.ChecksumAlgorithmSha256:
+			declared = input.ChecksumSHA256
+		case types.ChecksumAlgorithmCrc64nvme:
+			declared = input.ChecksumCRC64NVME
+		}
+		if declared != nil && *declared != objSum {
+			return nil, s3err.GetChecksumBadDigestErr(checksumAlgorithm)
+		}
+	}
+
 	upiddir := filepath.Join(objdir, uploadID)
 
 	userMetaData := make(map[string]string)
@@ -1718,52 +1750,29 @@ func (p *Posix) CompleteMultipartUpload(ctx context.Context, input *s3.CompleteM
 	var sha256 *string
 	var crc64nvme *string
 
-	// Calculate, compare with the provided checksum and store them
+	// store the calculated checksum (compared with the declared one above)
 	if checksums.Type != "" {
 		checksum := s3response.Checksum{
 			Algorithm: checksumAlgorithm,
 			Type:      checksums.Type,
 		}
 
-		var sum string
-		switch checksums.Type {
-		case types.ChecksumTypeComposite:
-			sum = compositeChecksumRdr.Sum()
-		case types.ChecksumTypeFullObject:
-			sum = hashRdr.Sum()
-		}
-
 		switch checksumAlgorithm {
 		case types.ChecksumAlgorithmCrc32:
-			if input.ChecksumCRC32 != nil && *input.ChecksumCRC32 != sum {
-				return nil, s3err.GetChecksumBadDigestErr(checksumAlgorithm)
-			}
-			checksum.CRC32 = &sum
-			crc32 = &sum
+			checksum.CRC32 = &objSum
+			crc32 = &objSum
 		case types.ChecksumAlgorithmCrc32c:
-			if input.ChecksumCRC32C != nil && *input.ChecksumCRC32C != sum {
-				return nil, s3err.GetChecksumBadDigestErr(checksumAlgorithm)
-			}
-			checksum.CRC32C = &sum
-			crc32c = &sum
+			checksum.CRC32C = &objSum
+			crc32c = &objSum
 		case types.ChecksumAlgorithmSha1:
-			if input.ChecksumSHA1 != nil && *input.ChecksumSHA1 != sum {
-				return nil, s3err.GetChecksumBadDigestErr(checksumAlgorithm)
-			}
-			checksum.SHA1 = &sum
-			sha1 = &sum
+			checksum.SHA1 = &objSum
+			sha1 = &objSum
 		case types.ChecksumAlgorithmSha256:
-			if input.ChecksumSHA256 != nil && *input.ChecksumSHA256 != sum {
-				return nil, s3err.GetChecksumBadDigestErr(checksumAlgorithm)
-			}
-			checksum.SHA256 = &sum
-			sha256 = &sum
+			checksum.SHA256 = &objSum
+			sha256 = &objSum
 		case types.ChecksumAlgorithmCrc64nvme:
-			if input.ChecksumCRC64NVME != nil && *input.ChecksumCRC64NVME != sum {
-				return nil, s3err.GetChecksumBadDigestErr(checksumAlgorithm)
-			}
-			checksum.CRC64NVME = &sum
-			crc64nvme = &sum
+			checksum.CRC64NVME = &objSum
+			crc64nvme = &objSum
 		}
 		err := p.storeChecksums(f.File(), bucket, object, checksum)
 		if err != nil {
